@@ -139,14 +139,14 @@ def run(ctx):
         hits[fn] = scan_function(node)
     ev.extra["order_rule_hits"] = {q: [list(h) for h in hs] for q, hs in hits.items()}
     jobs = []
-    Ds = (2, 3) if ctx.thorough() else (2,)
+    Ds = (2, 3)
     for D in Ds:
         if ctx.thorough():
             sets = [[(0, 0)], [(0, 0), (1, 0)], [(0, 0), (0, 1)], [(1, 0), (1, 1)], [(0, 0), (1, 0), (2, 0)], [(0, 1), (1, 0), (1, 1)]]
         else:
-            sets = [[(0, 0), (1, 0)], [(0, 0), (0, 1), (1, 1)]]
+            sets = [[(0, 0), (1, 0)], [(0, 0), (0, 1), (1, 1)], [(2, 0), (0, 0)]]
         if D == 3:
-            sets = sets[:4]
+            sets = sets[:4] if ctx.thorough() else sets[:1]
         for s in sets:
             ps = perms(s)
             pairs = [(a, b) for a in ps for b in ps] if (ctx.thorough() or len(s) <= 2) else [(ps[0], ps[0]), (ps[0], ps[4]), (ps[3], ps[1]), (ps[5], ps[2])]
